@@ -72,6 +72,21 @@ theorem C11_lines_spec (s : List Char) :
     exact ⟨⟨a, c, h1, by simpa using h2⟩, lines_noNewline s l hl⟩
   · intro ls h; exact lines_written ls h
 
+/-- What the text primitives used by `classify` mean: `pieces` is the unique decomposition of a
+    text at `|` (joining gives the text back, no piece contains `|`, and pieces without `|` are
+    recovered from their join); `trimChars` removes white space only and all of it at both ends;
+    `stripCommentChars` keeps the comment-free prefix before the first `//`. -/
+theorem C11_text_spec (l : List Char) :
+    (joinSep '|' (pieces '|' l) = l ∧ (∀ p ∈ pieces '|' l, '|' ∉ p) ∧
+      (∀ ps : List (List Char), ps ≠ [] → (∀ p ∈ ps, '|' ∉ p) → pieces '|' (joinSep '|' ps) = ps)) ∧
+    (∃ a c, l = a ++ trimChars l ++ c ∧ a.all isWhitespace = true ∧ c.all isWhitespace = true ∧
+      (∀ ch, (trimChars l).head? = some ch → isWhitespace ch = false) ∧
+      (∀ ch, (trimChars l).getLast? = some ch → isWhitespace ch = false)) ∧
+    (∃ c, l = stripCommentChars l ++ c ∧ hasComment (stripCommentChars l) = false ∧
+      (c = [] ∨ ∃ r, c = '/' :: '/' :: r)) :=
+  ⟨⟨joinSep_pieces '|' l, pieces_noSep '|' l, fun ps h1 h2 => pieces_joinSep '|' ps h1 h2⟩,
+   trimChars_spec l, stripComment_spec l⟩
+
 /-- `WF` characterises the range of `parse` … -/
 theorem C11_parse_wf (s : List Char) (c : Conf) (h : parse s = .ok c) : WF c := parse_wf s c h
 
